@@ -16,4 +16,9 @@ theorem wiring :
     ∧ Gen.affinematch_body = "corr = CorrelationResult(centers, refineds, peak_values, peak_elevations) ; match = Match(corr, selector=None, zero=None, a=None, b=None, indices=indices) ; try: return match.weighted_optimize() except np.linalg.LinAlgError: return Match.invalid(corr)" := by
   refine ⟨rfl, rfl, rfl, rfl⟩
 
+/-- glue the model takes for granted (batch helpers / result containers as written) -- a change there is a change of the tie -/
+theorem text_pins_glue :
+    Gen.corrresult_init_body = "if refineds is None: refineds = centers ; if peak_values is None: peak_values = np.ones(len(centers)) ; if peak_elevations is None: peak_elevations = np.ones(len(centers)) ; assert all((len(centers) == len(other) for other in [refineds, peak_values, peak_elevations])) ; self.centers = centers ; self.refineds = refineds ; self.peak_values = peak_values ; self.peak_elevations = peak_elevations" ∧
+    Gen.match_derive_body = "if zero is None: zero = self.zero ; if a is None: a = self.a ; if b is None: b = self.b ; if indices is None: indices = self.indices ; if selector is None: selector = self.selector ; return Match(correlation_result=self.correlation_result, selector=selector, zero=zero, a=a, b=b, indices=indices)" := ⟨rfl, rfl⟩
+
 end C06
